@@ -696,7 +696,7 @@ def build_strategies(tier='quick'):
         sc['steps'] = steps
         sc['exc'] = draw(st.sampled_from(['oom', 'oom', 'oom', 'oom', 'bad_alloc']))
         sc['recovery'] = draw(st.sampled_from(['destroy', 'destroy', 'destroy', 'abandon']))
-        sc['isolate'] = draw(st.integers(0, 7)) == 0
+        sc['isolate'] = draw(st.sampled_from([False] * 7 + [True]))
         return sc
 
     return scenario()
